@@ -67,9 +67,23 @@ def run_one(tape, cfg):
             nthreads = 2 + tape.draw(3, "nthreads")
             fams = []
             spec_f = []
+            # explicit tokens of several hashable kinds; different families get different tokens,
+            # but some of them look alike (1 vs "1", ("x", 1) vs "('x', 1)")
+            pool_tokens = [f"verif-tok-{tape.draw(2, 'tk')}", 1, "1", ("x", 1), "('x', 1)", 2.0, "2.0", b"k",
+                           "b'k'"]
+            used_tokens = []
             for f in range(nfam):
-                explicit = tape.chance(1, 3, "explicit")
-                lk = du.SerializableLock(f"verif-tok-{f}") if explicit else du.SerializableLock()
+                explicit = tape.chance(1, 2, "explicit")
+                tok = None
+                if explicit:
+                    cand = [t for t in pool_tokens if not any(t == u and type(t) is type(u)
+                                                              for u in used_tokens)]
+                    # prefer a token whose str() collides with one already used
+                    alike = [t for t in cand if any(str(t) == str(u) for u in used_tokens)]
+                    pick = alike if alike and tape.chance(2, 3, "alike") else cand
+                    tok = pick[tape.draw(len(pick), "tok")]
+                    used_tokens.append(tok)
+                lk = du.SerializableLock(tok) if explicit else du.SerializableLock()
                 pool = [lk]
                 ncopies = tape.draw(4, "ncopies")
                 hows = []
@@ -79,10 +93,10 @@ def run_one(tape, cfg):
                     pool.append(roundtrip(src, how, n))
                     hows.append((how, n))
                 if explicit and tape.chance(1, 2, "sep"):
-                    pool.append(du.SerializableLock(f"verif-tok-{f}"))  # separately created, same token
+                    pool.append(du.SerializableLock(tok))  # separately created, same token
                     hows.append(("same-token", 0))
                 fams.append(pool)
-                spec_f.append({"explicit": bool(explicit), "copies": hows})
+                spec_f.append({"explicit": bool(explicit), "token": repr(tok), "copies": hows})
         programs = []
         for t in range(nthreads):
             prog = []
